@@ -207,7 +207,8 @@ def ids_list(t):
 
 
 # ------------------------------------------------------------ solver helpers
-def discharge(tr, d, hyps, goals, label, replay=None, timeout=30.0, varnodes=None, sig_prefix='', defined=True):
+def discharge(tr, d, hyps, goals, label, replay=None, timeout=30.0, varnodes=None, sig_prefix='', defined=True,
+              threads=1, parallel=False):
     """Prove each (label, node[, extra hyps]) goal under hyps.  On `sat` replay(values)->(bool, detail)
     decides between violation and inconclusive.  Returns number proved."""
     from symtorch.explore import prove, _to_float
@@ -225,12 +226,22 @@ def discharge(tr, d, hyps, goals, label, replay=None, timeout=30.0, varnodes=Non
             allok = d.and_(*obl)
             goals.append(('every denominator is non-zero and every log/sqrt argument is in its domain', allok,
                           ground_axioms(d, [allok]), sig_prefix + 'well-defined'))
-    for g in goals:
+    def run(g):
         glabel, node = g[0], g[1]
         extra = list(g[2]) if len(g) > 2 else []
+        return prove(d, list(hyps) + extra, node, timeout=timeout, get_values=list(varnodes.values()), tr=tr,
+                     label=glabel, parallel=parallel)
+
+    if threads > 1 and len(goals) > 1:
+        from concurrent.futures import ThreadPoolExecutor
+
+        with ThreadPoolExecutor(max_workers=threads) as ex:
+            results = list(ex.map(run, goals))
+    else:
+        results = [run(g) for g in goals]
+    for g, (st, r, text) in zip(goals, results):
+        glabel, node = g[0], g[1]
         sig = g[3] if len(g) > 3 else (sig_prefix + glabel)
-        st, r, text = prove(d, list(hyps) + extra, node, timeout=timeout, get_values=list(varnodes.values()), tr=tr,
-                            label=glabel)
         if st == 'proved':
             proved += 1
             continue
@@ -259,3 +270,16 @@ def discharge(tr, d, hyps, goals, label, replay=None, timeout=30.0, varnodes=Non
                     continue
             tr.inconc(f'{label}: "{glabel}" undecided by the solver portfolio ({r.raw[:100] if r else ""})')
     return proved
+
+
+def abstracted(d, atoms, formulas):
+    """Replace the given sub-terms by fresh variables in the formulas (generalisation: a proof of the
+    abstracted statement is a proof of the original one by instantiation)."""
+    from symtorch import cur
+
+    t = cur()
+    mapping = {}
+    for a in atoms:
+        if a not in mapping and d.ops[a] not in ('const',):
+            mapping[a] = t.fresh('abs', d.vals[a])
+    return d.substitute(list(formulas), mapping)
